@@ -39,15 +39,16 @@ def call_key(call):
     return k
 
 
-def replay_src(c0, calls, extra=""):
+def replay_src(c0, calls, extra="", reject=None):
     return (REPLAY_PRELUDE + circ.circ_src(c0) + extra + "\nimport copy\nfrom checks import mutators\n"
-            f"calls={calls!r}\nbad=[]\n"
+            f"calls={calls!r}\nbad=[]\nreject={reject!r}\n"
             "from checks.c02 import check_copy_independent\n"
             "for call in calls:\n"
             "    prev=c\n"
             "    c=mutators.apply_call(c, call)\n"
             "    if call['kind']=='copy':\n"
             "        bad+=check_copy_independent(None, prev, c, None, None); c=prev\n"
+            "if reject is not None:\n    try:\n        mutators.apply_call(c, reject)\n    except Exception as e:\n        print('rejected:', type(e).__name__)\n"
             "bad+=circ.wf_problems(c)\n"
             "if not bad:\n"
             "    try:\n        cp=copy.copy(c)\n        if not (cp==c): bad.append('copy differs')\n"
@@ -97,6 +98,12 @@ def run_sequence(p, name, c0, calls):
         except Exception as e:  # noqa: BLE001
             p.count("calls_raising")
             p.count(f"raised:{type(e).__name__}")
+            # the caller catches the error and keeps using the circuit: it must still be a circuit
+            probs = circ.wf_problems(c)
+            if probs:
+                p.violation(f"wf:{call_key(call)}:{category(probs[0])}:after-a-rejected-call",
+                            f"{call} on {circ.describe(c0)} (after {applied}) raised {type(e).__name__} and left the circuit ill formed: {probs[:3]}",
+                            replay_src(c0, applied, reject=call))
             return
         applied.append(call)
         p.count("calls_returning")
@@ -156,6 +163,10 @@ def unit(p, item, tier, seed):
                 call = mutators.random_call(rnd, c0, step=rep_i, kinds=[kind])
                 if call is not None:
                     run_sequence(p, name, c0, [call])
+                    if rep_i == 0:
+                        bad_call = mutators.corrupt_call(call, c0, rnd)
+                        if bad_call is not None:
+                            run_sequence(p, name + "/rejected", c0, [bad_call])
         # short histories
         for h in range(4 if tier == "quick" else 10):
             c = mutators.rebuild(c0)
